@@ -13,17 +13,17 @@ def items():
     out = []
     for p in sorted(glob.glob(os.path.join(HERE, "mutants", "*.patch"))):
         name = os.path.basename(p)[:-6]
-        out.append((name, name.split("-")[0], p))
+        out.append((name, name.split("-")[0], p, "quick", None, {}))
     for d in sorted(glob.glob(os.path.join(HERE, "seeded", "*"))):
         meta = os.path.join(d, "meta.json")
         if os.path.exists(meta) and os.path.exists(os.path.join(d, "patch.diff")):
             m = json.load(open(meta))
             for pid in m.get("caught_by_expected", [m["property"]]):
-                out.append(("seeded/" + os.path.basename(d) + "@" + pid, pid, os.path.join(d, "patch.diff")))
+                out.append(("seeded/" + os.path.basename(d) + "@" + pid, pid, os.path.join(d, "patch.diff"), m.get("tier", "quick"), m.get("runs"), m.get("env", {})))
     return [x for x in out if pat in x[0]]
 
 def one(item):
-    name, pid, patch = item
+    name, pid, patch, tier, nruns, xenv = item
     t0 = time.time()
     wt = tempfile.mkdtemp(prefix="mut-", dir="/tmp")
     os.rmdir(wt)
@@ -32,8 +32,8 @@ def one(item):
         r = subprocess.run(["git", "-C", wt, "apply", patch], capture_output=True, text=True)
         if r.returncode != 0:
             return name, "PATCH-DOES-NOT-APPLY", r.stderr[-200:], 0
-        cmd = [os.path.join(HERE, "bin", "check"), pid, "--tier", "quick"] + (["--runs", runs] if runs else [])
-        env = dict(os.environ, VERIF_REPO=wt, VERIF_NO_EVIDENCE="1", VERIF_OUT=wt + "-out")
+        cmd = [os.path.join(HERE, "bin", "check"), pid, "--tier", tier] + (["--runs", str(nruns or runs)] if (nruns or runs) else [])
+        env = dict(os.environ, VERIF_REPO=wt, VERIF_NO_EVIDENCE="1", VERIF_OUT=wt + "-out", **xenv)
         r = subprocess.run(cmd, env=env, cwd=HERE, capture_output=True, text=True, timeout=1800)
         viol = [l for l in r.stdout.splitlines() if l.startswith("VIOLATION")]
         detail = next((l.strip() for l in r.stdout.splitlines() if l.startswith("  class=")), "")
